@@ -311,6 +311,9 @@ def run(ctx):
     from . import c10 as _c10
     _c10.subsume_operands(ctx, "C01-R5")
     _c10.subsume_guard(ctx, "C01-R5")
+    # R6: the mask walk with a pending prefix navigates the trie by bytes (first matching child); the builder must agree
+    from . import c16 as _c16
+    _c16.builder_first_match(ctx, "C01-R6")
 
     # ------------------------------------------------------------------ R3 EOS guard
     cm = ctx.body(TP + "::compute_mask_inner")
